@@ -374,7 +374,6 @@ func (gw guardedWriter[T]) Write(v T) {
 
 type onceChan struct {
 	channel chan any
-	wrote   int32
 }
 
 // newOnceChan returns an onceChan whose single write never blocks,
@@ -383,9 +382,13 @@ func newOnceChan() *onceChan {
 	return &onceChan{channel: make(chan any, 1)}
 }
 
+// write keeps the first value only. The buffered channel itself is the "once": the value is in the
+// channel when write returns. (A flag checked before the send lets a second panic pass while the first one
+// is not visible yet, so both could be lost.)
 func (oc *onceChan) write(val any) {
-	if atomic.CompareAndSwapInt32(&oc.wrote, 0, 1) {
-		oc.channel <- val
+	select {
+	case oc.channel <- val:
+	default:
 	}
 }
 
